@@ -52,6 +52,7 @@ type workerCfg struct {
 	Journal    string
 	EmitAt     int64
 	EmitOut    string
+	StopAt     int64
 }
 
 type meta struct {
@@ -127,7 +128,21 @@ func main() {
 		cfg.Prop = in.Property
 		var v *evid.Violation
 		var err error
-		if isRaceCase(in.Case) {
+		if h := historyOf(in.Case); h != nil {
+			// re-execute worker h.W's whole stream up to case h.Seq in this fresh process
+			hc := cfg
+			hc.Prop, hc.Tier, hc.Seed, hc.W, hc.NW, hc.StopAt, hc.Budget = in.Property, h.Tier, h.Seed, h.W, h.NW, h.Seq+1, 24*time.Hour
+			hc.Journal, hc.EmitOut = "", ""
+			st := eng.Worker(hc)
+			for i := range st.Violations {
+				if st.Violations[i].Seq == h.Seq {
+					vv := st.Violations[i]
+					vv.Case = in.Case
+					v = &vv
+					break
+				}
+			}
+		} else if isRaceCase(in.Case) {
 			v, err = callsim.RaceExec(in.Case, cfg.Repo)
 		} else {
 			v, err = eng.Exec(in.Property, in.Case, cfg)
@@ -204,7 +219,7 @@ func execFresh(prop string, raw json.RawMessage, cfg workerCfg) (sig, what strin
 			}
 			return "", "", fmt.Errorf("exec failed: %v: %s", err, tail(se.String(), 2000))
 		}
-	case <-time.After(300 * time.Second):
+	case <-time.After(300*time.Second + 3*cfg.Budget):
 		cmd.Process.Kill()
 		return "", "", fmt.Errorf("exec watchdog expired")
 	}
@@ -448,6 +463,18 @@ func run(cfg workerCfg, noEvidence bool) int {
 				continue
 			}
 		}
+		if sig != s && !isRaceCase(v.Case) {
+			// last resort: the violation may depend on everything the worker did before (state that outlives Models and
+			// is never evicted). The worker's stream is a pure function of (seed, tier, worker index), so a fresh process
+			// can re-execute it up to this case.
+			hraw, _ := json.Marshal(map[string]interface{}{"history": historyCase{Tier: cfg.Tier, Seed: cfg.Seed, W: v.W, NW: cfg.NW, Seq: v.Seq, Signature: s,
+				Note: "replay re-executes the whole case stream of this worker up to case seq in a fresh process; it needs the same /verif revision"}})
+			if sig3, _, err3 := execFresh(cfg.Prop, hraw, cfg); err3 == nil && sig3 == s {
+				v.Case = hraw
+				v.What += " [needs the worker's whole history: reproduced by re-executing its case stream in a fresh process]"
+				sig = sig3
+			}
+		}
 		if sig != s {
 			fmt.Fprintf(os.Stderr, "NOT-REPRODUCED: violation %q seen by a worker did not reproduce in a fresh process (got %q); not reported as a verdict\n", s, sig)
 			notReproduced++
@@ -622,4 +649,25 @@ func crashCase(cfg workerCfg, w int, pre, stderr string) *evid.Violation {
 		return nil
 	}
 	return &evid.Violation{Property: cfg.Prop, Signature: "process-crash", What: "the worker executing this case was killed by the Go runtime: " + fatalLine(stderr), Case: raw}
+}
+
+// historyCase: "re-execute worker W's case stream up to case Seq" (see the NOT-REPRODUCED fallback in run).
+type historyCase struct {
+	Tier      string `json:"tier"`
+	Seed      uint64 `json:"seed"`
+	W         int    `json:"w"`
+	NW        int    `json:"nw"`
+	Seq       int64  `json:"seq"`
+	Signature string `json:"signature"`
+	Note      string `json:"note,omitempty"`
+}
+
+func historyOf(raw json.RawMessage) *historyCase {
+	var m struct {
+		History *historyCase `json:"history"`
+	}
+	if err := json.Unmarshal(raw, &m); err != nil {
+		return nil
+	}
+	return m.History
 }
